@@ -90,11 +90,23 @@ var whitelist = []fnSpec{
 	{"ttheader", "", "readKVInfo"}, {"ttheader", "", "Decode"},
 	// the generic skip template over an abstract SkipN (skipdecoder_tpl.go): recursion, loops
 	{"thrift", "SkipDecoderTpl", "Skip"},
+	// BufferReader over an abstract bufiox.Reader (bufferreader.go): the skipper and what it calls
+	{"thrift", "BufferReader", "next"}, {"thrift", "BufferReader", "skipn"}, {"thrift", "BufferReader", "ReadI32"},
+	{"thrift", "BufferReader", "skipstr"}, {"thrift", "BufferReader", "ReadFieldBegin"},
+	{"thrift", "BufferReader", "ReadMapBegin"}, {"thrift", "BufferReader", "ReadListBegin"},
+	{"thrift", "BufferReader", "skipType"}, {"thrift", "BufferReader", "Skip"},
 }
 
 // Coq names that differ from g_<pkg>_<Func> (methods of several types with the same name)
 var coqNameOf = map[fnSpec]string{
 	{"thrift", "SkipDecoderTpl", "Skip"}: "g_thrift_SkipDecoderTpl_Skip",
+	{"thrift", "BufferReader", "next"}: "g_thrift_BufferReader_next", {"thrift", "BufferReader", "skipn"}: "g_thrift_BufferReader_skipn",
+	{"thrift", "BufferReader", "ReadI32"}: "g_thrift_BufferReader_ReadI32", {"thrift", "BufferReader", "skipstr"}: "g_thrift_BufferReader_skipstr",
+	{"thrift", "BufferReader", "ReadFieldBegin"}: "g_thrift_BufferReader_ReadFieldBegin",
+	{"thrift", "BufferReader", "ReadMapBegin"}:   "g_thrift_BufferReader_ReadMapBegin",
+	{"thrift", "BufferReader", "ReadListBegin"}:  "g_thrift_BufferReader_ReadListBegin",
+	{"thrift", "BufferReader", "skipType"}:       "g_thrift_BufferReader_skipType",
+	{"thrift", "BufferReader", "Skip"}:           "g_thrift_BufferReader_Skip",
 }
 
 // library calls that are given a meaning (everything else fails)
@@ -112,6 +124,7 @@ const (
 	libSpanCopy     = "(*github.com/bytedance/gopkg/lang/span.spanCache).Copy"
 	libErrorf       = "fmt.Errorf"
 	libErrorsNew    = "errors.New"
+	libPEWrap       = modPath + "protocol/thrift.NewProtocolExceptionWithErr"
 	identityComment = "identity on the contents"
 )
 
@@ -983,6 +996,16 @@ func (c *fctx) call(x *ast.CallExpr) (pre []string, terms []string) {
 		p2, v := c.expr(x.Args[1])
 		pre = append(append(p1, p2...), fmt.Sprintf("do %s <- gput %s %s (gbe %d %s);", name, name, off, putLib[full], v))
 		return pre, nil
+	case full == libPEWrap:
+		// thrift.NewProtocolExceptionWithErr(err): panics on a nil err (err.Error()); otherwise the
+		// exception that wraps err (assumed not to be a *ProtocolException already, which would be
+		// returned as it is: the errors of a bufiox.Reader are not)
+		if len(x.Args) != 1 {
+			c.failf(x, "%s with %d arguments", full, len(x.Args))
+		}
+		p, a := c.expr(x.Args[0])
+		t := c.fresh()
+		return append(p, fmt.Sprintf("do %s <- gpe_wrap %s;", t, a)), []string{t}
 	case errCtorLib[full]:
 		// a freshly built, non-nil error; its arguments must be free of effects (err.Error() on a
 		// nil err panics: checked)
